@@ -71,6 +71,10 @@ def c06_jobs(tier):
     dn = 12 if tier == "quick" else 19
     for shape in [0, 1, 2, 3, 5]:
         js.append(job("ZZ_C06_Digits", U, n=dn, shape=shape))
+    if tier == "quick":
+        # the 19-digit band where hours*60 overflows although both numbers parse
+        js.append(job("ZZ_C06_Digits", U, n=19, shape=0))
+        js.append(job("ZZ_C06_Digits", U, n=19, shape=2))
     if tier == "thorough":
         js.append(job("ZZ_C06_Digits", U, n=20, shape=0))
         js.append(job("ZZ_C06_Digits", U, n=20, shape=2))
@@ -175,7 +179,7 @@ S = K + "/service"
 
 
 def c02_jobs(tier):
-    js = [job("ZZ_C02_EvalNow", S)]
+    js = [job("ZZ_C02_EvalNow", S), job("ZZ_C02_EvalNowMany", S)]
     shapes = [(1, 1), (1, 2), (2, 1)] if tier == "quick" else [(1, 1), (1, 2), (2, 1), (1, 3), (3, 1), (2, 2)]
     for nrec, nent in shapes:
         js.append(job("ZZ_C02_Eval", S, nrec=nrec, nent=nent))
@@ -313,6 +317,7 @@ def c12_jobs(tier):
         for n in ([1, 2, 3] if tier == "quick" else [1, 2, 3, 4]):
             js.append(job("ZZ_C12_Partition", C, n=n, agg=agg))
     js.append(job("ZZ_C15_Hashes", P))
+    js.append(job("ZZ_C12_ReportVsTotal", C))
     for frm, span in ([(1996, 10)] if tier == "quick" else [(0, 10), (1895, 10), (1996, 10), (9990, 10)]):
         js.append(job("ZZ_C15_Week", P, **{"from": frm, "span": span, "_split": 65536}))
     return js + lemmas()
@@ -323,6 +328,9 @@ def c13_jobs(tier):
     js = [job("ZZ_C13_Sort", S, n=n) for n in ([1, 2, 3] if q else [1, 2, 3, 4, 5])]
     js += [job("ZZ_C13_Filter", S, n=n, e=1, mode=0) for n in ([1, 2] if q else [1, 2, 3])]
     js += [job("ZZ_C13_Filter", S, n=1, e=2, mode=1), job("ZZ_C13_Filter", S, n=2, e=1, mode=1)]
+    for sel in range(7):
+        for frm, span in ([(2019, 4)] if q else [(0, 10), (1896, 10), (1996, 10), (9989, 10)]):
+            js.append(job("ZZ_C13_Shortcuts", U, **{"from": frm, "span": span, "sel": sel, "_split": 65536}))
     if not q:
         js += [job("ZZ_C13_Filter", S, n=1, e=1, mode=2), job("ZZ_C13_Filter", S, n=1, e=3, mode=1), job("ZZ_C13_Filter", S, n=2, e=2, mode=1)]
     return js
@@ -334,6 +342,16 @@ def c14_jobs(tier):
     js += [job("ZZ_C14_TagTotals", S, n=1, e=2, mode=1), job("ZZ_C14_TagTotals", S, n=2, e=1, mode=1)]
     if not q:
         js += [job("ZZ_C14_TagTotals", S, n=2, e=2, mode=1), job("ZZ_C14_TagTotals", S, n=1, e=3, mode=1)]
+    return js
+
+
+def c20_jobs(tier):
+    q = tier == "quick"
+    js = []
+    for L in ([1, 2] if q else [1, 2, 3]):
+        for f, r in (FMT_ROT_QUICK if L < 3 else [(1, 1)]):
+            js.append(job("ZZ_C20_Json", U, L=L, faults=1, pretty=(L + f) % 2, fmt=f, rot=r))
+    js.append(job("ZZ_C20_Json", U, L=3, faults=1, pretty=0, fmt=0, rot=2) if not q else job("ZZ_C10_ErrPos", U, L=2, fmt=1, rot=1, w=1))
     return js
 
 
@@ -363,7 +381,7 @@ CHECKS = {
     "C06": {
         "jobs": c06_jobs,
         "bounds": {
-            "quick": "every byte string of length 0..5 as a whole file; 5 valid prefixes + every 3-byte tail; digit-run templates with 12 symbolic digits (duration, negative duration, should-total, hours+minutes, two entries); arbitrary int64 entry values in evaluation",
+            "quick": "every byte string of length 0..5 as a whole file; 5 valid prefixes + every 3-byte tail; digit-run templates with 12 symbolic digits (duration, negative duration, should-total, hours+minutes, two entries) and 19 symbolic digits (hours, should-total); arbitrary int64 entry values in evaluation",
             "thorough": "every byte string up to 7 bytes; tails up to 5 bytes; digit runs of 19 and 20 symbolic digits",
         },
         "outside": "longer arbitrary inputs than the bound (except through the templates); memory exhaustion; very long lines; the JSON text encoder (stub); decimal rendering of the huge numbers in the digit templates",
@@ -467,9 +485,9 @@ CHECKS = {
     },
     "C13": {
         "jobs": c13_jobs,
-        "bounds": {"quick": "sort of 1-3 records with symbolic dates (2019-2021, any month, day 1-28), asc and desc; date clauses (--date, --since, --since+--until) on 1-2 records with symbolic dates; tag clauses (#x, #y, #x=v at record and entry level) x 5 entry types x all entry kinds on 1 record x 2 entries and 2 records x 1 entry",
+        "bounds": {"quick": "shortcut filters this/last month, quarter, year and --today for every reference date 2019-2022 against records on the first/last day of the reference period and their neighbours; sort of 1-3 records with symbolic dates (2019-2021, any month, day 1-28), asc and desc; date clauses (--date, --since, --since+--until) on 1-2 records with symbolic dates; tag clauses (#x, #y, #x=v at record and entry level) x 5 entry types x all entry kinds on 1 record x 2 entries and 2 records x 1 entry",
                    "thorough": "sort up to 5 records; 3 records for date clauses; all clause kinds combined on one record; 3 entries"},
-        "outside": "the translation of --after/--before/--period and the today/this-/last- shortcuts into a query (FilterArgs.ApplyFilter: uses the period code proven in C15; not composed here); sort of more than 12 records (pdqsort leaves its insertion-sort regime)",
+        "outside": "--after/--before/--period, --yesterday/--tomorrow and the week shortcuts of FilterArgs.ApplyFilter (they pass C15's period code through unchanged; month/quarter/year shortcuts and --today are composed here for every reference date of the windows); sort of more than 12 records (pdqsort leaves its insertion-sort regime)",
         "stubs": [MODELS["sort"], MODELS["regexp"]],
         "assumptions": COMMON_ASSUME + ["dates are raw field triples (Filter and Sort only compare year/month/day)"],
     },
@@ -480,6 +498,14 @@ CHECKS = {
         "outside": "non-ASCII letters in tag names (the Unicode letter class is only reached with concrete runes); summaries longer than the bound; multi-line summaries",
         "stubs": [MODELS["regexp"], MODELS["sort"]],
         "assumptions": COMMON_ASSUME,
+    },
+    "C20": {
+        "jobs": c20_jobs,
+        "bounds": {"quick": "every generated document of 1-2 lines (valid and with injected rule violations): the envelope and view tree handed to the JSON encoder - exactly one of records/errors non-null, per record date/summary/should-total/entries in order with type, minute values, total = sum of entries, diff = total - should, range total = end - start; error views equal to the terminal report's numbers",
+                   "thorough": "3-line documents"},
+        "outside": "well-formedness and escaping of the emitted JSON TEXT for arbitrary bytes (encoding/json is reflection-driven and is stubbed as an opaque codec in the engine; the natively replayed witnesses decode the real text with encoding/json, which samples but does not decide well-formedness); --pretty layout; filters and --sort in klog json (C13)",
+        "stubs": [MODELS["json"], MODELS["regexp"], MODELS["fmt"], MODELS["sort"]],
+        "assumptions": COMMON_ASSUME + ["reduced scope: the value tree, not the text (DESIGN section 6)"],
     },
     "C18": {
         "jobs": c18_jobs,
